@@ -139,3 +139,166 @@ def check_events(events):
     if pos[0] != n:
         return 'events after STREAM-END'
     return None
+
+
+# ---------------------------------------------------------------------------------------------
+# Reference recogniser of the documented *token* grammar (the LL(1) grammar in the comment at the
+# top of lib/yaml/parser.py), written independently of the parser's state machine.
+# tokens: list of kind names without the 'Token' suffix, e.g. ['StreamStart', 'Scalar', 'StreamEnd'].
+# recognise(tokens) -> ('ok', None) or ('error', i): i = index of the first token that cannot
+# continue any sentence of the grammar (viable-prefix property of LL(1) parsing).
+class _Reject(Exception):
+    def __init__(self, pos):
+        self.pos = pos
+
+
+NODE_FIRST_FLOW = ('Alias', 'Anchor', 'Tag', 'Scalar', 'FlowSequenceStart', 'FlowMappingStart')
+NODE_FIRST_BLOCK = NODE_FIRST_FLOW + ('BlockSequenceStart', 'BlockMappingStart')
+
+
+class _R:
+    def __init__(self, toks):
+        self.t = toks
+        self.i = 0
+
+    def peek(self):
+        return self.t[self.i] if self.i < len(self.t) else None
+
+    def eat(self, kind):
+        if self.peek() != kind:
+            raise _Reject(self.i)
+        self.i += 1
+
+    def fail(self):
+        raise _Reject(self.i)
+
+    # stream ::= STREAM-START implicit_document? explicit_document* STREAM-END
+    def stream(self):
+        self.eat('StreamStart')
+        if self.peek() not in ('Directive', 'DocumentStart', 'StreamEnd'):
+            self.node(block=True, indentless=False)          # implicit document
+            while self.peek() == 'DocumentEnd':
+                self.i += 1
+        while self.peek() != 'StreamEnd':
+            ndir = 0
+            while self.peek() == 'Directive':
+                ndir += 1
+                if ndir > 1:
+                    self.fail()       # the stub serves %YAML directives only: a second one is a duplicate
+                self.i += 1
+            self.eat('DocumentStart')
+            if self.peek() not in ('Directive', 'DocumentStart', 'DocumentEnd', 'StreamEnd'):
+                self.node(block=True, indentless=False)
+            while self.peek() == 'DocumentEnd':
+                self.i += 1
+        self.eat('StreamEnd')
+        if self.i != len(self.t):
+            self.fail()
+
+    # node ::= ALIAS | properties content? | content
+    def node(self, block, indentless):
+        k = self.peek()
+        if k == 'Alias':
+            self.i += 1
+            return
+        props = False
+        if k == 'Tag':
+            self.i += 1
+            props = True
+            if self.peek() == 'Anchor':
+                self.i += 1
+        elif k == 'Anchor':
+            self.i += 1
+            props = True
+            if self.peek() == 'Tag':
+                self.i += 1
+        k = self.peek()
+        if k == 'Scalar':
+            self.i += 1
+        elif k == 'FlowSequenceStart':
+            self.flow_sequence()
+        elif k == 'FlowMappingStart':
+            self.flow_mapping()
+        elif block and k == 'BlockSequenceStart':
+            self.block_sequence()
+        elif block and k == 'BlockMappingStart':
+            self.block_mapping()
+        elif block and indentless and k == 'BlockEntry':
+            self.indentless_sequence()
+        elif not props:
+            self.fail()                # a node was required and nothing can start one
+
+    def block_sequence(self):
+        self.eat('BlockSequenceStart')
+        while self.peek() == 'BlockEntry':
+            self.i += 1
+            if self.peek() not in ('BlockEntry', 'BlockEnd'):
+                self.node(block=True, indentless=False)
+        self.eat('BlockEnd')
+
+    def indentless_sequence(self):
+        while self.peek() == 'BlockEntry':
+            self.i += 1
+            if self.peek() not in ('BlockEntry', 'Key', 'Value', 'BlockEnd'):
+                self.node(block=True, indentless=False)
+
+    def block_mapping(self):
+        # block_mapping ::= BLOCK-MAPPING-START (KEY node? (VALUE node?)?)* BLOCK-END
+        # (the comment in parser.py also lets a VALUE stand without a KEY; the property demands
+        # "KEY before VALUE", which is what is encoded here)
+        self.eat('BlockMappingStart')
+        while self.peek() == 'Key':
+            self.i += 1
+            if self.peek() not in ('Key', 'Value', 'BlockEnd'):
+                self.node(block=True, indentless=True)
+            if self.peek() == 'Value':
+                self.i += 1
+                if self.peek() not in ('Key', 'Value', 'BlockEnd'):
+                    self.node(block=True, indentless=True)
+        self.eat('BlockEnd')
+
+    def flow_entry(self, closer):
+        """flow_node | KEY flow_node? (VALUE flow_node?)?"""
+        if self.peek() == 'Key':
+            self.i += 1
+            if self.peek() not in ('Value', 'FlowEntry', closer):
+                self.node(block=False, indentless=False)
+            if self.peek() == 'Value':
+                self.i += 1
+                if self.peek() not in ('FlowEntry', closer):
+                    self.node(block=False, indentless=False)
+        else:
+            self.node(block=False, indentless=False)
+
+    def flow_sequence(self):
+        self.eat('FlowSequenceStart')
+        first = True
+        while self.peek() != 'FlowSequenceEnd':
+            if not first:
+                self.eat('FlowEntry')
+                if self.peek() == 'FlowSequenceEnd':
+                    break
+            self.flow_entry('FlowSequenceEnd')
+            first = False
+        self.eat('FlowSequenceEnd')
+
+    def flow_mapping(self):
+        self.eat('FlowMappingStart')
+        first = True
+        while self.peek() != 'FlowMappingEnd':
+            if not first:
+                self.eat('FlowEntry')
+                if self.peek() == 'FlowMappingEnd':
+                    break
+            self.flow_entry('FlowMappingEnd')
+            first = False
+        self.eat('FlowMappingEnd')
+
+
+def recognise(tokens):
+    r = _R(list(tokens))
+    try:
+        r.stream()
+    except _Reject as e:
+        return 'error', e.pos
+    return 'ok', None
